@@ -200,6 +200,13 @@ def t_skeletons(shard, nshards):
     allsk = sk + extra
     n = 0
     rng = random.Random(shard)
+    # parenthesised expressions as comparison operands (accepted by the default environment)
+    ops_ = []
+    for e in sk[:40]:
+        for lit in (True, False, 1):
+            ops_ += [["cmp", "==", ["par", e], ["lit", lit]], ["cmp", "!=", ["lit", lit], ["par", e]], ["not", ["cmp", "==", ["par", e], ["lit", lit]]],
+                     ["and", ["cmp", "==", ["par", e], ["lit", lit]], ATOMS[0]]]
+    allsk = allsk + ops_
     for i, e in enumerate(allsk):
         if i % nshards != shard:
             continue
@@ -219,7 +226,8 @@ def t_literals():
     stats = Stats()
     n = 0
     nums = ["0", "-0", "1", "-1", "10", "100", "1e2", "1E+2", "1e-2", "1.5", "-1.5", "1.50", "0.1", "1e100", "1.0e100", "1e308", "5e-324",
-            "2.5e-3", "123456789012", "9007199254740991", "1.0", "-0.0", "1e0", "12e1", "0.000001", "1e-7", "1e21", "1e22", "123456789.123456789"]
+            "2.5e-3", "123456789012", "9007199254740991", "1.0", "-0.0", "1e0", "12e1", "0.000001", "1e-7", "1e21", "1e22", "123456789.123456789",
+            "5E-1", "25E-1", "1" + "0" * 320 + ".", "1" + "0" * 320 + ".5", "-1" + "0" * 320 + ".0", "1.5e999", "1.0E+400", "0." + "0" * 330 + "1", "1e-400"]
     doc = [0, 1, -1, 10, 100, 0.01, 1.5, -1.5, 0.1, 1e100, 1e308, 5e-324, 0.0025, 123456789012, 9007199254740991, 120, 1e-6, 1e-7, 1e21, 1e22]
     for num in nums:
         for tmpl in ("$[?@ == %s]", "$[?@ < %s]", "$[?%s >= @]", "$[?@ in [%s, 1]]"):
@@ -249,7 +257,7 @@ def t_literals():
         judge(stats, t, [{"a": 1, "b": 1, "c": 2}, {"a": [1, 2], "b": [2, 3], "c": [2]}, [{"a": 1}, {"b": 2}]], "compound")
         stats.nt("compound", t)
         n += 1
-    slices = ["$[::]", "$[1:]", "$[:1]", "$[::2]", "$[::-1]", "$[1:2:3]", "$[-1:]", "$[:]", "$[0:0:0]", "$[ 1 : 5 : 2 ]", "$..[1:]", "$[1:,2]", "$[*,~]", "$.~", "$..~"]
+    slices = ["$::0 2:", "$:1 :2", "$::0 1:", "$.a:1:2", "$:2", ":1:", "$1:2 0:1", "$.a::2 ::2", "$[::]", "$[1:]", "$[:1]", "$[::2]", "$[::-1]", "$[1:2:3]", "$[-1:]", "$[:]", "$[0:0:0]", "$[ 1 : 5 : 2 ]", "$..[1:]", "$[1:,2]", "$[*,~]", "$.~", "$..~"]
     for t in slices:
         judge(stats, t, [[1, 2, 3, 4, 5, 6], {"a": [1, 2, 3]}], "slice")
         stats.nt("slice", t)
